@@ -2,4 +2,6 @@
 EXTENDS Streams
 AllItems == {"s", "s10", "if", "ifn", "else", "endif", "endifn", "do", "enddo", "dol10", "dol20", "cont10", "cont20", "enddo10", "blk", "endblk", "sel", "case", "endsel"}
 DoItems == {"s", "s10", "do", "enddo", "dol10", "dol20", "cont10", "cont20", "enddo10", "if", "endif"}
+\* labelled-DO nests with body statements and the surplus END of the enclosing subprogram
+UnitEndItems == {"s", "s10", "dol10", "dol20", "cont10", "cont20", "endu"}
 =============================================================================
